@@ -16,7 +16,9 @@
      err                   = `error`
    Environment (scripts, not dispatcher state): now, sock/sock_end (bytes in the socket not yet read,
    and what follows them), hs (remaining handler scripts), chans (request-body channels),
-   bpend/bleft/bskip (response body stream in flight and whether the encoder swallows it: HEAD).
+   bpend/bleft/bskip (response body stream in flight and whether the encoder swallows it: HEAD),
+   hfail (status of the error the handler future has just resolved with, 0 = Ok), berr (the body in
+   flight belongs to an error response: `State::SendErrorPayload` rather than `SendPayload`).
    Ghost: res (0 = future still pending, 1 = Ok(()), >= 2 error class), pw/ps (wire items flushed
    and service calls started during the current poll), trace (history), reparsed. *)
 Require Import AV.Lib.Base.
@@ -33,7 +35,8 @@ Inductive conn_t := CClose | CKeepAlive.                (* ConnectionType; Upgra
 
 (* what a handler future does on successive polls *)
 Inductive hact := HPend | HRead | HReadAll | HDrop | HUntil (t : N)
-                | HRespond (c : copt) (body : N) (bpend : N).
+                | HRespond (c : copt) (body : N) (bpend : N)
+                | HFail (status : N) (body : N) (bpend : N).   (* Err(e), e.into() = response with that status/body *)
 
 (* protocol items carried by the byte stream *)
 Inductive item := IReq (r : req) | IPart | IData (n : N) | IEnd | IBad.
@@ -93,77 +96,83 @@ Inductive tev :=
   pw : list witem;
   ps : list N;
   trace : list tev;
-  reparsed : bool }.
+  reparsed : bool;
+  hfail : N;
+  berr : bool }.
 
 Definition set_started (v : bool) (s : st) : st :=
-  mkSt v (finished s) (keep_alive s) (shutdown s) (read_disc s) (write_disc s) (linger s) (draining s) (dstate s) (payload s) (drainable s) (messages s) (head_t s) (ka_tm s) (sd_t s) (sig_armed s) (rbuf s) (wbuf s) (c_conn s) (c_v11 s) (c_head s) (c_pl s) (err s) (now s) (sock s) (sock_end s) (hs s) (chans s) (bpend s) (bleft s) (bskip s) (res s) (pw s) (ps s) (trace s) (reparsed s).
+  mkSt v (finished s) (keep_alive s) (shutdown s) (read_disc s) (write_disc s) (linger s) (draining s) (dstate s) (payload s) (drainable s) (messages s) (head_t s) (ka_tm s) (sd_t s) (sig_armed s) (rbuf s) (wbuf s) (c_conn s) (c_v11 s) (c_head s) (c_pl s) (err s) (now s) (sock s) (sock_end s) (hs s) (chans s) (bpend s) (bleft s) (bskip s) (res s) (pw s) (ps s) (trace s) (reparsed s) (hfail s) (berr s).
 Definition set_finished (v : bool) (s : st) : st :=
-  mkSt (started s) v (keep_alive s) (shutdown s) (read_disc s) (write_disc s) (linger s) (draining s) (dstate s) (payload s) (drainable s) (messages s) (head_t s) (ka_tm s) (sd_t s) (sig_armed s) (rbuf s) (wbuf s) (c_conn s) (c_v11 s) (c_head s) (c_pl s) (err s) (now s) (sock s) (sock_end s) (hs s) (chans s) (bpend s) (bleft s) (bskip s) (res s) (pw s) (ps s) (trace s) (reparsed s).
+  mkSt (started s) v (keep_alive s) (shutdown s) (read_disc s) (write_disc s) (linger s) (draining s) (dstate s) (payload s) (drainable s) (messages s) (head_t s) (ka_tm s) (sd_t s) (sig_armed s) (rbuf s) (wbuf s) (c_conn s) (c_v11 s) (c_head s) (c_pl s) (err s) (now s) (sock s) (sock_end s) (hs s) (chans s) (bpend s) (bleft s) (bskip s) (res s) (pw s) (ps s) (trace s) (reparsed s) (hfail s) (berr s).
 Definition set_keep_alive (v : bool) (s : st) : st :=
-  mkSt (started s) (finished s) v (shutdown s) (read_disc s) (write_disc s) (linger s) (draining s) (dstate s) (payload s) (drainable s) (messages s) (head_t s) (ka_tm s) (sd_t s) (sig_armed s) (rbuf s) (wbuf s) (c_conn s) (c_v11 s) (c_head s) (c_pl s) (err s) (now s) (sock s) (sock_end s) (hs s) (chans s) (bpend s) (bleft s) (bskip s) (res s) (pw s) (ps s) (trace s) (reparsed s).
+  mkSt (started s) (finished s) v (shutdown s) (read_disc s) (write_disc s) (linger s) (draining s) (dstate s) (payload s) (drainable s) (messages s) (head_t s) (ka_tm s) (sd_t s) (sig_armed s) (rbuf s) (wbuf s) (c_conn s) (c_v11 s) (c_head s) (c_pl s) (err s) (now s) (sock s) (sock_end s) (hs s) (chans s) (bpend s) (bleft s) (bskip s) (res s) (pw s) (ps s) (trace s) (reparsed s) (hfail s) (berr s).
 Definition set_shutdown (v : bool) (s : st) : st :=
-  mkSt (started s) (finished s) (keep_alive s) v (read_disc s) (write_disc s) (linger s) (draining s) (dstate s) (payload s) (drainable s) (messages s) (head_t s) (ka_tm s) (sd_t s) (sig_armed s) (rbuf s) (wbuf s) (c_conn s) (c_v11 s) (c_head s) (c_pl s) (err s) (now s) (sock s) (sock_end s) (hs s) (chans s) (bpend s) (bleft s) (bskip s) (res s) (pw s) (ps s) (trace s) (reparsed s).
+  mkSt (started s) (finished s) (keep_alive s) v (read_disc s) (write_disc s) (linger s) (draining s) (dstate s) (payload s) (drainable s) (messages s) (head_t s) (ka_tm s) (sd_t s) (sig_armed s) (rbuf s) (wbuf s) (c_conn s) (c_v11 s) (c_head s) (c_pl s) (err s) (now s) (sock s) (sock_end s) (hs s) (chans s) (bpend s) (bleft s) (bskip s) (res s) (pw s) (ps s) (trace s) (reparsed s) (hfail s) (berr s).
 Definition set_read_disc (v : bool) (s : st) : st :=
-  mkSt (started s) (finished s) (keep_alive s) (shutdown s) v (write_disc s) (linger s) (draining s) (dstate s) (payload s) (drainable s) (messages s) (head_t s) (ka_tm s) (sd_t s) (sig_armed s) (rbuf s) (wbuf s) (c_conn s) (c_v11 s) (c_head s) (c_pl s) (err s) (now s) (sock s) (sock_end s) (hs s) (chans s) (bpend s) (bleft s) (bskip s) (res s) (pw s) (ps s) (trace s) (reparsed s).
+  mkSt (started s) (finished s) (keep_alive s) (shutdown s) v (write_disc s) (linger s) (draining s) (dstate s) (payload s) (drainable s) (messages s) (head_t s) (ka_tm s) (sd_t s) (sig_armed s) (rbuf s) (wbuf s) (c_conn s) (c_v11 s) (c_head s) (c_pl s) (err s) (now s) (sock s) (sock_end s) (hs s) (chans s) (bpend s) (bleft s) (bskip s) (res s) (pw s) (ps s) (trace s) (reparsed s) (hfail s) (berr s).
 Definition set_write_disc (v : bool) (s : st) : st :=
-  mkSt (started s) (finished s) (keep_alive s) (shutdown s) (read_disc s) v (linger s) (draining s) (dstate s) (payload s) (drainable s) (messages s) (head_t s) (ka_tm s) (sd_t s) (sig_armed s) (rbuf s) (wbuf s) (c_conn s) (c_v11 s) (c_head s) (c_pl s) (err s) (now s) (sock s) (sock_end s) (hs s) (chans s) (bpend s) (bleft s) (bskip s) (res s) (pw s) (ps s) (trace s) (reparsed s).
+  mkSt (started s) (finished s) (keep_alive s) (shutdown s) (read_disc s) v (linger s) (draining s) (dstate s) (payload s) (drainable s) (messages s) (head_t s) (ka_tm s) (sd_t s) (sig_armed s) (rbuf s) (wbuf s) (c_conn s) (c_v11 s) (c_head s) (c_pl s) (err s) (now s) (sock s) (sock_end s) (hs s) (chans s) (bpend s) (bleft s) (bskip s) (res s) (pw s) (ps s) (trace s) (reparsed s) (hfail s) (berr s).
 Definition set_linger (v : bool) (s : st) : st :=
-  mkSt (started s) (finished s) (keep_alive s) (shutdown s) (read_disc s) (write_disc s) v (draining s) (dstate s) (payload s) (drainable s) (messages s) (head_t s) (ka_tm s) (sd_t s) (sig_armed s) (rbuf s) (wbuf s) (c_conn s) (c_v11 s) (c_head s) (c_pl s) (err s) (now s) (sock s) (sock_end s) (hs s) (chans s) (bpend s) (bleft s) (bskip s) (res s) (pw s) (ps s) (trace s) (reparsed s).
+  mkSt (started s) (finished s) (keep_alive s) (shutdown s) (read_disc s) (write_disc s) v (draining s) (dstate s) (payload s) (drainable s) (messages s) (head_t s) (ka_tm s) (sd_t s) (sig_armed s) (rbuf s) (wbuf s) (c_conn s) (c_v11 s) (c_head s) (c_pl s) (err s) (now s) (sock s) (sock_end s) (hs s) (chans s) (bpend s) (bleft s) (bskip s) (res s) (pw s) (ps s) (trace s) (reparsed s) (hfail s) (berr s).
 Definition set_draining (v : bool) (s : st) : st :=
-  mkSt (started s) (finished s) (keep_alive s) (shutdown s) (read_disc s) (write_disc s) (linger s) v (dstate s) (payload s) (drainable s) (messages s) (head_t s) (ka_tm s) (sd_t s) (sig_armed s) (rbuf s) (wbuf s) (c_conn s) (c_v11 s) (c_head s) (c_pl s) (err s) (now s) (sock s) (sock_end s) (hs s) (chans s) (bpend s) (bleft s) (bskip s) (res s) (pw s) (ps s) (trace s) (reparsed s).
+  mkSt (started s) (finished s) (keep_alive s) (shutdown s) (read_disc s) (write_disc s) (linger s) v (dstate s) (payload s) (drainable s) (messages s) (head_t s) (ka_tm s) (sd_t s) (sig_armed s) (rbuf s) (wbuf s) (c_conn s) (c_v11 s) (c_head s) (c_pl s) (err s) (now s) (sock s) (sock_end s) (hs s) (chans s) (bpend s) (bleft s) (bskip s) (res s) (pw s) (ps s) (trace s) (reparsed s) (hfail s) (berr s).
 Definition set_dstate (v : dst) (s : st) : st :=
-  mkSt (started s) (finished s) (keep_alive s) (shutdown s) (read_disc s) (write_disc s) (linger s) (draining s) v (payload s) (drainable s) (messages s) (head_t s) (ka_tm s) (sd_t s) (sig_armed s) (rbuf s) (wbuf s) (c_conn s) (c_v11 s) (c_head s) (c_pl s) (err s) (now s) (sock s) (sock_end s) (hs s) (chans s) (bpend s) (bleft s) (bskip s) (res s) (pw s) (ps s) (trace s) (reparsed s).
+  mkSt (started s) (finished s) (keep_alive s) (shutdown s) (read_disc s) (write_disc s) (linger s) (draining s) v (payload s) (drainable s) (messages s) (head_t s) (ka_tm s) (sd_t s) (sig_armed s) (rbuf s) (wbuf s) (c_conn s) (c_v11 s) (c_head s) (c_pl s) (err s) (now s) (sock s) (sock_end s) (hs s) (chans s) (bpend s) (bleft s) (bskip s) (res s) (pw s) (ps s) (trace s) (reparsed s) (hfail s) (berr s).
 Definition set_payload (v : option N) (s : st) : st :=
-  mkSt (started s) (finished s) (keep_alive s) (shutdown s) (read_disc s) (write_disc s) (linger s) (draining s) (dstate s) v (drainable s) (messages s) (head_t s) (ka_tm s) (sd_t s) (sig_armed s) (rbuf s) (wbuf s) (c_conn s) (c_v11 s) (c_head s) (c_pl s) (err s) (now s) (sock s) (sock_end s) (hs s) (chans s) (bpend s) (bleft s) (bskip s) (res s) (pw s) (ps s) (trace s) (reparsed s).
+  mkSt (started s) (finished s) (keep_alive s) (shutdown s) (read_disc s) (write_disc s) (linger s) (draining s) (dstate s) v (drainable s) (messages s) (head_t s) (ka_tm s) (sd_t s) (sig_armed s) (rbuf s) (wbuf s) (c_conn s) (c_v11 s) (c_head s) (c_pl s) (err s) (now s) (sock s) (sock_end s) (hs s) (chans s) (bpend s) (bleft s) (bskip s) (res s) (pw s) (ps s) (trace s) (reparsed s) (hfail s) (berr s).
 Definition set_drainable (v : bool) (s : st) : st :=
-  mkSt (started s) (finished s) (keep_alive s) (shutdown s) (read_disc s) (write_disc s) (linger s) (draining s) (dstate s) (payload s) v (messages s) (head_t s) (ka_tm s) (sd_t s) (sig_armed s) (rbuf s) (wbuf s) (c_conn s) (c_v11 s) (c_head s) (c_pl s) (err s) (now s) (sock s) (sock_end s) (hs s) (chans s) (bpend s) (bleft s) (bskip s) (res s) (pw s) (ps s) (trace s) (reparsed s).
+  mkSt (started s) (finished s) (keep_alive s) (shutdown s) (read_disc s) (write_disc s) (linger s) (draining s) (dstate s) (payload s) v (messages s) (head_t s) (ka_tm s) (sd_t s) (sig_armed s) (rbuf s) (wbuf s) (c_conn s) (c_v11 s) (c_head s) (c_pl s) (err s) (now s) (sock s) (sock_end s) (hs s) (chans s) (bpend s) (bleft s) (bskip s) (res s) (pw s) (ps s) (trace s) (reparsed s) (hfail s) (berr s).
 Definition set_messages (v : list dmsg) (s : st) : st :=
-  mkSt (started s) (finished s) (keep_alive s) (shutdown s) (read_disc s) (write_disc s) (linger s) (draining s) (dstate s) (payload s) (drainable s) v (head_t s) (ka_tm s) (sd_t s) (sig_armed s) (rbuf s) (wbuf s) (c_conn s) (c_v11 s) (c_head s) (c_pl s) (err s) (now s) (sock s) (sock_end s) (hs s) (chans s) (bpend s) (bleft s) (bskip s) (res s) (pw s) (ps s) (trace s) (reparsed s).
+  mkSt (started s) (finished s) (keep_alive s) (shutdown s) (read_disc s) (write_disc s) (linger s) (draining s) (dstate s) (payload s) (drainable s) v (head_t s) (ka_tm s) (sd_t s) (sig_armed s) (rbuf s) (wbuf s) (c_conn s) (c_v11 s) (c_head s) (c_pl s) (err s) (now s) (sock s) (sock_end s) (hs s) (chans s) (bpend s) (bleft s) (bskip s) (res s) (pw s) (ps s) (trace s) (reparsed s) (hfail s) (berr s).
 Definition set_head_t (v : timer) (s : st) : st :=
-  mkSt (started s) (finished s) (keep_alive s) (shutdown s) (read_disc s) (write_disc s) (linger s) (draining s) (dstate s) (payload s) (drainable s) (messages s) v (ka_tm s) (sd_t s) (sig_armed s) (rbuf s) (wbuf s) (c_conn s) (c_v11 s) (c_head s) (c_pl s) (err s) (now s) (sock s) (sock_end s) (hs s) (chans s) (bpend s) (bleft s) (bskip s) (res s) (pw s) (ps s) (trace s) (reparsed s).
+  mkSt (started s) (finished s) (keep_alive s) (shutdown s) (read_disc s) (write_disc s) (linger s) (draining s) (dstate s) (payload s) (drainable s) (messages s) v (ka_tm s) (sd_t s) (sig_armed s) (rbuf s) (wbuf s) (c_conn s) (c_v11 s) (c_head s) (c_pl s) (err s) (now s) (sock s) (sock_end s) (hs s) (chans s) (bpend s) (bleft s) (bskip s) (res s) (pw s) (ps s) (trace s) (reparsed s) (hfail s) (berr s).
 Definition set_ka_tm (v : timer) (s : st) : st :=
-  mkSt (started s) (finished s) (keep_alive s) (shutdown s) (read_disc s) (write_disc s) (linger s) (draining s) (dstate s) (payload s) (drainable s) (messages s) (head_t s) v (sd_t s) (sig_armed s) (rbuf s) (wbuf s) (c_conn s) (c_v11 s) (c_head s) (c_pl s) (err s) (now s) (sock s) (sock_end s) (hs s) (chans s) (bpend s) (bleft s) (bskip s) (res s) (pw s) (ps s) (trace s) (reparsed s).
+  mkSt (started s) (finished s) (keep_alive s) (shutdown s) (read_disc s) (write_disc s) (linger s) (draining s) (dstate s) (payload s) (drainable s) (messages s) (head_t s) v (sd_t s) (sig_armed s) (rbuf s) (wbuf s) (c_conn s) (c_v11 s) (c_head s) (c_pl s) (err s) (now s) (sock s) (sock_end s) (hs s) (chans s) (bpend s) (bleft s) (bskip s) (res s) (pw s) (ps s) (trace s) (reparsed s) (hfail s) (berr s).
 Definition set_sd_t (v : timer) (s : st) : st :=
-  mkSt (started s) (finished s) (keep_alive s) (shutdown s) (read_disc s) (write_disc s) (linger s) (draining s) (dstate s) (payload s) (drainable s) (messages s) (head_t s) (ka_tm s) v (sig_armed s) (rbuf s) (wbuf s) (c_conn s) (c_v11 s) (c_head s) (c_pl s) (err s) (now s) (sock s) (sock_end s) (hs s) (chans s) (bpend s) (bleft s) (bskip s) (res s) (pw s) (ps s) (trace s) (reparsed s).
+  mkSt (started s) (finished s) (keep_alive s) (shutdown s) (read_disc s) (write_disc s) (linger s) (draining s) (dstate s) (payload s) (drainable s) (messages s) (head_t s) (ka_tm s) v (sig_armed s) (rbuf s) (wbuf s) (c_conn s) (c_v11 s) (c_head s) (c_pl s) (err s) (now s) (sock s) (sock_end s) (hs s) (chans s) (bpend s) (bleft s) (bskip s) (res s) (pw s) (ps s) (trace s) (reparsed s) (hfail s) (berr s).
 Definition set_sig_armed (v : bool) (s : st) : st :=
-  mkSt (started s) (finished s) (keep_alive s) (shutdown s) (read_disc s) (write_disc s) (linger s) (draining s) (dstate s) (payload s) (drainable s) (messages s) (head_t s) (ka_tm s) (sd_t s) v (rbuf s) (wbuf s) (c_conn s) (c_v11 s) (c_head s) (c_pl s) (err s) (now s) (sock s) (sock_end s) (hs s) (chans s) (bpend s) (bleft s) (bskip s) (res s) (pw s) (ps s) (trace s) (reparsed s).
+  mkSt (started s) (finished s) (keep_alive s) (shutdown s) (read_disc s) (write_disc s) (linger s) (draining s) (dstate s) (payload s) (drainable s) (messages s) (head_t s) (ka_tm s) (sd_t s) v (rbuf s) (wbuf s) (c_conn s) (c_v11 s) (c_head s) (c_pl s) (err s) (now s) (sock s) (sock_end s) (hs s) (chans s) (bpend s) (bleft s) (bskip s) (res s) (pw s) (ps s) (trace s) (reparsed s) (hfail s) (berr s).
 Definition set_rbuf (v : list item) (s : st) : st :=
-  mkSt (started s) (finished s) (keep_alive s) (shutdown s) (read_disc s) (write_disc s) (linger s) (draining s) (dstate s) (payload s) (drainable s) (messages s) (head_t s) (ka_tm s) (sd_t s) (sig_armed s) v (wbuf s) (c_conn s) (c_v11 s) (c_head s) (c_pl s) (err s) (now s) (sock s) (sock_end s) (hs s) (chans s) (bpend s) (bleft s) (bskip s) (res s) (pw s) (ps s) (trace s) (reparsed s).
+  mkSt (started s) (finished s) (keep_alive s) (shutdown s) (read_disc s) (write_disc s) (linger s) (draining s) (dstate s) (payload s) (drainable s) (messages s) (head_t s) (ka_tm s) (sd_t s) (sig_armed s) v (wbuf s) (c_conn s) (c_v11 s) (c_head s) (c_pl s) (err s) (now s) (sock s) (sock_end s) (hs s) (chans s) (bpend s) (bleft s) (bskip s) (res s) (pw s) (ps s) (trace s) (reparsed s) (hfail s) (berr s).
 Definition set_wbuf (v : list witem) (s : st) : st :=
-  mkSt (started s) (finished s) (keep_alive s) (shutdown s) (read_disc s) (write_disc s) (linger s) (draining s) (dstate s) (payload s) (drainable s) (messages s) (head_t s) (ka_tm s) (sd_t s) (sig_armed s) (rbuf s) v (c_conn s) (c_v11 s) (c_head s) (c_pl s) (err s) (now s) (sock s) (sock_end s) (hs s) (chans s) (bpend s) (bleft s) (bskip s) (res s) (pw s) (ps s) (trace s) (reparsed s).
+  mkSt (started s) (finished s) (keep_alive s) (shutdown s) (read_disc s) (write_disc s) (linger s) (draining s) (dstate s) (payload s) (drainable s) (messages s) (head_t s) (ka_tm s) (sd_t s) (sig_armed s) (rbuf s) v (c_conn s) (c_v11 s) (c_head s) (c_pl s) (err s) (now s) (sock s) (sock_end s) (hs s) (chans s) (bpend s) (bleft s) (bskip s) (res s) (pw s) (ps s) (trace s) (reparsed s) (hfail s) (berr s).
 Definition set_c_conn (v : conn_t) (s : st) : st :=
-  mkSt (started s) (finished s) (keep_alive s) (shutdown s) (read_disc s) (write_disc s) (linger s) (draining s) (dstate s) (payload s) (drainable s) (messages s) (head_t s) (ka_tm s) (sd_t s) (sig_armed s) (rbuf s) (wbuf s) v (c_v11 s) (c_head s) (c_pl s) (err s) (now s) (sock s) (sock_end s) (hs s) (chans s) (bpend s) (bleft s) (bskip s) (res s) (pw s) (ps s) (trace s) (reparsed s).
+  mkSt (started s) (finished s) (keep_alive s) (shutdown s) (read_disc s) (write_disc s) (linger s) (draining s) (dstate s) (payload s) (drainable s) (messages s) (head_t s) (ka_tm s) (sd_t s) (sig_armed s) (rbuf s) (wbuf s) v (c_v11 s) (c_head s) (c_pl s) (err s) (now s) (sock s) (sock_end s) (hs s) (chans s) (bpend s) (bleft s) (bskip s) (res s) (pw s) (ps s) (trace s) (reparsed s) (hfail s) (berr s).
 Definition set_c_v11 (v : bool) (s : st) : st :=
-  mkSt (started s) (finished s) (keep_alive s) (shutdown s) (read_disc s) (write_disc s) (linger s) (draining s) (dstate s) (payload s) (drainable s) (messages s) (head_t s) (ka_tm s) (sd_t s) (sig_armed s) (rbuf s) (wbuf s) (c_conn s) v (c_head s) (c_pl s) (err s) (now s) (sock s) (sock_end s) (hs s) (chans s) (bpend s) (bleft s) (bskip s) (res s) (pw s) (ps s) (trace s) (reparsed s).
+  mkSt (started s) (finished s) (keep_alive s) (shutdown s) (read_disc s) (write_disc s) (linger s) (draining s) (dstate s) (payload s) (drainable s) (messages s) (head_t s) (ka_tm s) (sd_t s) (sig_armed s) (rbuf s) (wbuf s) (c_conn s) v (c_head s) (c_pl s) (err s) (now s) (sock s) (sock_end s) (hs s) (chans s) (bpend s) (bleft s) (bskip s) (res s) (pw s) (ps s) (trace s) (reparsed s) (hfail s) (berr s).
 Definition set_c_head (v : bool) (s : st) : st :=
-  mkSt (started s) (finished s) (keep_alive s) (shutdown s) (read_disc s) (write_disc s) (linger s) (draining s) (dstate s) (payload s) (drainable s) (messages s) (head_t s) (ka_tm s) (sd_t s) (sig_armed s) (rbuf s) (wbuf s) (c_conn s) (c_v11 s) v (c_pl s) (err s) (now s) (sock s) (sock_end s) (hs s) (chans s) (bpend s) (bleft s) (bskip s) (res s) (pw s) (ps s) (trace s) (reparsed s).
+  mkSt (started s) (finished s) (keep_alive s) (shutdown s) (read_disc s) (write_disc s) (linger s) (draining s) (dstate s) (payload s) (drainable s) (messages s) (head_t s) (ka_tm s) (sd_t s) (sig_armed s) (rbuf s) (wbuf s) (c_conn s) (c_v11 s) v (c_pl s) (err s) (now s) (sock s) (sock_end s) (hs s) (chans s) (bpend s) (bleft s) (bskip s) (res s) (pw s) (ps s) (trace s) (reparsed s) (hfail s) (berr s).
 Definition set_c_pl (v : bool) (s : st) : st :=
-  mkSt (started s) (finished s) (keep_alive s) (shutdown s) (read_disc s) (write_disc s) (linger s) (draining s) (dstate s) (payload s) (drainable s) (messages s) (head_t s) (ka_tm s) (sd_t s) (sig_armed s) (rbuf s) (wbuf s) (c_conn s) (c_v11 s) (c_head s) v (err s) (now s) (sock s) (sock_end s) (hs s) (chans s) (bpend s) (bleft s) (bskip s) (res s) (pw s) (ps s) (trace s) (reparsed s).
+  mkSt (started s) (finished s) (keep_alive s) (shutdown s) (read_disc s) (write_disc s) (linger s) (draining s) (dstate s) (payload s) (drainable s) (messages s) (head_t s) (ka_tm s) (sd_t s) (sig_armed s) (rbuf s) (wbuf s) (c_conn s) (c_v11 s) (c_head s) v (err s) (now s) (sock s) (sock_end s) (hs s) (chans s) (bpend s) (bleft s) (bskip s) (res s) (pw s) (ps s) (trace s) (reparsed s) (hfail s) (berr s).
 Definition set_err (v : option N) (s : st) : st :=
-  mkSt (started s) (finished s) (keep_alive s) (shutdown s) (read_disc s) (write_disc s) (linger s) (draining s) (dstate s) (payload s) (drainable s) (messages s) (head_t s) (ka_tm s) (sd_t s) (sig_armed s) (rbuf s) (wbuf s) (c_conn s) (c_v11 s) (c_head s) (c_pl s) v (now s) (sock s) (sock_end s) (hs s) (chans s) (bpend s) (bleft s) (bskip s) (res s) (pw s) (ps s) (trace s) (reparsed s).
+  mkSt (started s) (finished s) (keep_alive s) (shutdown s) (read_disc s) (write_disc s) (linger s) (draining s) (dstate s) (payload s) (drainable s) (messages s) (head_t s) (ka_tm s) (sd_t s) (sig_armed s) (rbuf s) (wbuf s) (c_conn s) (c_v11 s) (c_head s) (c_pl s) v (now s) (sock s) (sock_end s) (hs s) (chans s) (bpend s) (bleft s) (bskip s) (res s) (pw s) (ps s) (trace s) (reparsed s) (hfail s) (berr s).
 Definition set_now (v : N) (s : st) : st :=
-  mkSt (started s) (finished s) (keep_alive s) (shutdown s) (read_disc s) (write_disc s) (linger s) (draining s) (dstate s) (payload s) (drainable s) (messages s) (head_t s) (ka_tm s) (sd_t s) (sig_armed s) (rbuf s) (wbuf s) (c_conn s) (c_v11 s) (c_head s) (c_pl s) (err s) v (sock s) (sock_end s) (hs s) (chans s) (bpend s) (bleft s) (bskip s) (res s) (pw s) (ps s) (trace s) (reparsed s).
+  mkSt (started s) (finished s) (keep_alive s) (shutdown s) (read_disc s) (write_disc s) (linger s) (draining s) (dstate s) (payload s) (drainable s) (messages s) (head_t s) (ka_tm s) (sd_t s) (sig_armed s) (rbuf s) (wbuf s) (c_conn s) (c_v11 s) (c_head s) (c_pl s) (err s) v (sock s) (sock_end s) (hs s) (chans s) (bpend s) (bleft s) (bskip s) (res s) (pw s) (ps s) (trace s) (reparsed s) (hfail s) (berr s).
 Definition set_sock (v : list item) (s : st) : st :=
-  mkSt (started s) (finished s) (keep_alive s) (shutdown s) (read_disc s) (write_disc s) (linger s) (draining s) (dstate s) (payload s) (drainable s) (messages s) (head_t s) (ka_tm s) (sd_t s) (sig_armed s) (rbuf s) (wbuf s) (c_conn s) (c_v11 s) (c_head s) (c_pl s) (err s) (now s) v (sock_end s) (hs s) (chans s) (bpend s) (bleft s) (bskip s) (res s) (pw s) (ps s) (trace s) (reparsed s).
+  mkSt (started s) (finished s) (keep_alive s) (shutdown s) (read_disc s) (write_disc s) (linger s) (draining s) (dstate s) (payload s) (drainable s) (messages s) (head_t s) (ka_tm s) (sd_t s) (sig_armed s) (rbuf s) (wbuf s) (c_conn s) (c_v11 s) (c_head s) (c_pl s) (err s) (now s) v (sock_end s) (hs s) (chans s) (bpend s) (bleft s) (bskip s) (res s) (pw s) (ps s) (trace s) (reparsed s) (hfail s) (berr s).
 Definition set_sock_end (v : rend) (s : st) : st :=
-  mkSt (started s) (finished s) (keep_alive s) (shutdown s) (read_disc s) (write_disc s) (linger s) (draining s) (dstate s) (payload s) (drainable s) (messages s) (head_t s) (ka_tm s) (sd_t s) (sig_armed s) (rbuf s) (wbuf s) (c_conn s) (c_v11 s) (c_head s) (c_pl s) (err s) (now s) (sock s) v (hs s) (chans s) (bpend s) (bleft s) (bskip s) (res s) (pw s) (ps s) (trace s) (reparsed s).
+  mkSt (started s) (finished s) (keep_alive s) (shutdown s) (read_disc s) (write_disc s) (linger s) (draining s) (dstate s) (payload s) (drainable s) (messages s) (head_t s) (ka_tm s) (sd_t s) (sig_armed s) (rbuf s) (wbuf s) (c_conn s) (c_v11 s) (c_head s) (c_pl s) (err s) (now s) (sock s) v (hs s) (chans s) (bpend s) (bleft s) (bskip s) (res s) (pw s) (ps s) (trace s) (reparsed s) (hfail s) (berr s).
 Definition set_hs (v : list (N * list hact)) (s : st) : st :=
-  mkSt (started s) (finished s) (keep_alive s) (shutdown s) (read_disc s) (write_disc s) (linger s) (draining s) (dstate s) (payload s) (drainable s) (messages s) (head_t s) (ka_tm s) (sd_t s) (sig_armed s) (rbuf s) (wbuf s) (c_conn s) (c_v11 s) (c_head s) (c_pl s) (err s) (now s) (sock s) (sock_end s) v (chans s) (bpend s) (bleft s) (bskip s) (res s) (pw s) (ps s) (trace s) (reparsed s).
+  mkSt (started s) (finished s) (keep_alive s) (shutdown s) (read_disc s) (write_disc s) (linger s) (draining s) (dstate s) (payload s) (drainable s) (messages s) (head_t s) (ka_tm s) (sd_t s) (sig_armed s) (rbuf s) (wbuf s) (c_conn s) (c_v11 s) (c_head s) (c_pl s) (err s) (now s) (sock s) (sock_end s) v (chans s) (bpend s) (bleft s) (bskip s) (res s) (pw s) (ps s) (trace s) (reparsed s) (hfail s) (berr s).
 Definition set_chans (v : list (N * chan)) (s : st) : st :=
-  mkSt (started s) (finished s) (keep_alive s) (shutdown s) (read_disc s) (write_disc s) (linger s) (draining s) (dstate s) (payload s) (drainable s) (messages s) (head_t s) (ka_tm s) (sd_t s) (sig_armed s) (rbuf s) (wbuf s) (c_conn s) (c_v11 s) (c_head s) (c_pl s) (err s) (now s) (sock s) (sock_end s) (hs s) v (bpend s) (bleft s) (bskip s) (res s) (pw s) (ps s) (trace s) (reparsed s).
+  mkSt (started s) (finished s) (keep_alive s) (shutdown s) (read_disc s) (write_disc s) (linger s) (draining s) (dstate s) (payload s) (drainable s) (messages s) (head_t s) (ka_tm s) (sd_t s) (sig_armed s) (rbuf s) (wbuf s) (c_conn s) (c_v11 s) (c_head s) (c_pl s) (err s) (now s) (sock s) (sock_end s) (hs s) v (bpend s) (bleft s) (bskip s) (res s) (pw s) (ps s) (trace s) (reparsed s) (hfail s) (berr s).
 Definition set_bpend (v : N) (s : st) : st :=
-  mkSt (started s) (finished s) (keep_alive s) (shutdown s) (read_disc s) (write_disc s) (linger s) (draining s) (dstate s) (payload s) (drainable s) (messages s) (head_t s) (ka_tm s) (sd_t s) (sig_armed s) (rbuf s) (wbuf s) (c_conn s) (c_v11 s) (c_head s) (c_pl s) (err s) (now s) (sock s) (sock_end s) (hs s) (chans s) v (bleft s) (bskip s) (res s) (pw s) (ps s) (trace s) (reparsed s).
+  mkSt (started s) (finished s) (keep_alive s) (shutdown s) (read_disc s) (write_disc s) (linger s) (draining s) (dstate s) (payload s) (drainable s) (messages s) (head_t s) (ka_tm s) (sd_t s) (sig_armed s) (rbuf s) (wbuf s) (c_conn s) (c_v11 s) (c_head s) (c_pl s) (err s) (now s) (sock s) (sock_end s) (hs s) (chans s) v (bleft s) (bskip s) (res s) (pw s) (ps s) (trace s) (reparsed s) (hfail s) (berr s).
 Definition set_bleft (v : N) (s : st) : st :=
-  mkSt (started s) (finished s) (keep_alive s) (shutdown s) (read_disc s) (write_disc s) (linger s) (draining s) (dstate s) (payload s) (drainable s) (messages s) (head_t s) (ka_tm s) (sd_t s) (sig_armed s) (rbuf s) (wbuf s) (c_conn s) (c_v11 s) (c_head s) (c_pl s) (err s) (now s) (sock s) (sock_end s) (hs s) (chans s) (bpend s) v (bskip s) (res s) (pw s) (ps s) (trace s) (reparsed s).
+  mkSt (started s) (finished s) (keep_alive s) (shutdown s) (read_disc s) (write_disc s) (linger s) (draining s) (dstate s) (payload s) (drainable s) (messages s) (head_t s) (ka_tm s) (sd_t s) (sig_armed s) (rbuf s) (wbuf s) (c_conn s) (c_v11 s) (c_head s) (c_pl s) (err s) (now s) (sock s) (sock_end s) (hs s) (chans s) (bpend s) v (bskip s) (res s) (pw s) (ps s) (trace s) (reparsed s) (hfail s) (berr s).
 Definition set_bskip (v : bool) (s : st) : st :=
-  mkSt (started s) (finished s) (keep_alive s) (shutdown s) (read_disc s) (write_disc s) (linger s) (draining s) (dstate s) (payload s) (drainable s) (messages s) (head_t s) (ka_tm s) (sd_t s) (sig_armed s) (rbuf s) (wbuf s) (c_conn s) (c_v11 s) (c_head s) (c_pl s) (err s) (now s) (sock s) (sock_end s) (hs s) (chans s) (bpend s) (bleft s) v (res s) (pw s) (ps s) (trace s) (reparsed s).
+  mkSt (started s) (finished s) (keep_alive s) (shutdown s) (read_disc s) (write_disc s) (linger s) (draining s) (dstate s) (payload s) (drainable s) (messages s) (head_t s) (ka_tm s) (sd_t s) (sig_armed s) (rbuf s) (wbuf s) (c_conn s) (c_v11 s) (c_head s) (c_pl s) (err s) (now s) (sock s) (sock_end s) (hs s) (chans s) (bpend s) (bleft s) v (res s) (pw s) (ps s) (trace s) (reparsed s) (hfail s) (berr s).
 Definition set_res (v : N) (s : st) : st :=
-  mkSt (started s) (finished s) (keep_alive s) (shutdown s) (read_disc s) (write_disc s) (linger s) (draining s) (dstate s) (payload s) (drainable s) (messages s) (head_t s) (ka_tm s) (sd_t s) (sig_armed s) (rbuf s) (wbuf s) (c_conn s) (c_v11 s) (c_head s) (c_pl s) (err s) (now s) (sock s) (sock_end s) (hs s) (chans s) (bpend s) (bleft s) (bskip s) v (pw s) (ps s) (trace s) (reparsed s).
+  mkSt (started s) (finished s) (keep_alive s) (shutdown s) (read_disc s) (write_disc s) (linger s) (draining s) (dstate s) (payload s) (drainable s) (messages s) (head_t s) (ka_tm s) (sd_t s) (sig_armed s) (rbuf s) (wbuf s) (c_conn s) (c_v11 s) (c_head s) (c_pl s) (err s) (now s) (sock s) (sock_end s) (hs s) (chans s) (bpend s) (bleft s) (bskip s) v (pw s) (ps s) (trace s) (reparsed s) (hfail s) (berr s).
 Definition set_pw (v : list witem) (s : st) : st :=
-  mkSt (started s) (finished s) (keep_alive s) (shutdown s) (read_disc s) (write_disc s) (linger s) (draining s) (dstate s) (payload s) (drainable s) (messages s) (head_t s) (ka_tm s) (sd_t s) (sig_armed s) (rbuf s) (wbuf s) (c_conn s) (c_v11 s) (c_head s) (c_pl s) (err s) (now s) (sock s) (sock_end s) (hs s) (chans s) (bpend s) (bleft s) (bskip s) (res s) v (ps s) (trace s) (reparsed s).
+  mkSt (started s) (finished s) (keep_alive s) (shutdown s) (read_disc s) (write_disc s) (linger s) (draining s) (dstate s) (payload s) (drainable s) (messages s) (head_t s) (ka_tm s) (sd_t s) (sig_armed s) (rbuf s) (wbuf s) (c_conn s) (c_v11 s) (c_head s) (c_pl s) (err s) (now s) (sock s) (sock_end s) (hs s) (chans s) (bpend s) (bleft s) (bskip s) (res s) v (ps s) (trace s) (reparsed s) (hfail s) (berr s).
 Definition set_ps (v : list N) (s : st) : st :=
-  mkSt (started s) (finished s) (keep_alive s) (shutdown s) (read_disc s) (write_disc s) (linger s) (draining s) (dstate s) (payload s) (drainable s) (messages s) (head_t s) (ka_tm s) (sd_t s) (sig_armed s) (rbuf s) (wbuf s) (c_conn s) (c_v11 s) (c_head s) (c_pl s) (err s) (now s) (sock s) (sock_end s) (hs s) (chans s) (bpend s) (bleft s) (bskip s) (res s) (pw s) v (trace s) (reparsed s).
+  mkSt (started s) (finished s) (keep_alive s) (shutdown s) (read_disc s) (write_disc s) (linger s) (draining s) (dstate s) (payload s) (drainable s) (messages s) (head_t s) (ka_tm s) (sd_t s) (sig_armed s) (rbuf s) (wbuf s) (c_conn s) (c_v11 s) (c_head s) (c_pl s) (err s) (now s) (sock s) (sock_end s) (hs s) (chans s) (bpend s) (bleft s) (bskip s) (res s) (pw s) v (trace s) (reparsed s) (hfail s) (berr s).
 Definition set_trace (v : list tev) (s : st) : st :=
-  mkSt (started s) (finished s) (keep_alive s) (shutdown s) (read_disc s) (write_disc s) (linger s) (draining s) (dstate s) (payload s) (drainable s) (messages s) (head_t s) (ka_tm s) (sd_t s) (sig_armed s) (rbuf s) (wbuf s) (c_conn s) (c_v11 s) (c_head s) (c_pl s) (err s) (now s) (sock s) (sock_end s) (hs s) (chans s) (bpend s) (bleft s) (bskip s) (res s) (pw s) (ps s) v (reparsed s).
+  mkSt (started s) (finished s) (keep_alive s) (shutdown s) (read_disc s) (write_disc s) (linger s) (draining s) (dstate s) (payload s) (drainable s) (messages s) (head_t s) (ka_tm s) (sd_t s) (sig_armed s) (rbuf s) (wbuf s) (c_conn s) (c_v11 s) (c_head s) (c_pl s) (err s) (now s) (sock s) (sock_end s) (hs s) (chans s) (bpend s) (bleft s) (bskip s) (res s) (pw s) (ps s) v (reparsed s) (hfail s) (berr s).
 Definition set_reparsed (v : bool) (s : st) : st :=
-  mkSt (started s) (finished s) (keep_alive s) (shutdown s) (read_disc s) (write_disc s) (linger s) (draining s) (dstate s) (payload s) (drainable s) (messages s) (head_t s) (ka_tm s) (sd_t s) (sig_armed s) (rbuf s) (wbuf s) (c_conn s) (c_v11 s) (c_head s) (c_pl s) (err s) (now s) (sock s) (sock_end s) (hs s) (chans s) (bpend s) (bleft s) (bskip s) (res s) (pw s) (ps s) (trace s) v.
+  mkSt (started s) (finished s) (keep_alive s) (shutdown s) (read_disc s) (write_disc s) (linger s) (draining s) (dstate s) (payload s) (drainable s) (messages s) (head_t s) (ka_tm s) (sd_t s) (sig_armed s) (rbuf s) (wbuf s) (c_conn s) (c_v11 s) (c_head s) (c_pl s) (err s) (now s) (sock s) (sock_end s) (hs s) (chans s) (bpend s) (bleft s) (bskip s) (res s) (pw s) (ps s) (trace s) v (hfail s) (berr s).
+Definition set_hfail (v : N) (s : st) : st :=
+  mkSt (started s) (finished s) (keep_alive s) (shutdown s) (read_disc s) (write_disc s) (linger s) (draining s) (dstate s) (payload s) (drainable s) (messages s) (head_t s) (ka_tm s) (sd_t s) (sig_armed s) (rbuf s) (wbuf s) (c_conn s) (c_v11 s) (c_head s) (c_pl s) (err s) (now s) (sock s) (sock_end s) (hs s) (chans s) (bpend s) (bleft s) (bskip s) (res s) (pw s) (ps s) (trace s) (reparsed s) v (berr s).
+Definition set_berr (v : bool) (s : st) : st :=
+  mkSt (started s) (finished s) (keep_alive s) (shutdown s) (read_disc s) (write_disc s) (linger s) (draining s) (dstate s) (payload s) (drainable s) (messages s) (head_t s) (ka_tm s) (sd_t s) (sig_armed s) (rbuf s) (wbuf s) (c_conn s) (c_v11 s) (c_head s) (c_pl s) (err s) (now s) (sock s) (sock_end s) (hs s) (chans s) (bpend s) (bleft s) (bskip s) (res s) (pw s) (ps s) (trace s) (reparsed s) (hfail s) v.
